@@ -72,6 +72,11 @@ class Inner:
 
 
 @dataclass
+class OptHolder:
+    q: Optional[Inner] = None  # a signature-derived Optional[dataclass] member: its action keeps sub_add_kwargs between parses
+
+
+@dataclass
 class Outer:
     a: int = 1
     inner: Inner = field(default_factory=Inner)
